@@ -22,12 +22,12 @@ import (
 
 func c05GenThreading(r *verifh.Rng) []verifh.Section {
 	var secs []verifh.Section
-	for i := 0; i < verifh.Scale(8, 100); i++ {
+	for i := 0; i < verifh.Scale(8, 300); i++ {
 		n := c5.PickN(r)
 		secs = append(secs, verifh.Section{Cfg: fmt.Sprintf("kind=runner mode=seq n=%d", n),
 			Ops: c5.SeqOps(r, n, r.Range(10, 50), true, c5.FinishOp(r))})
 	}
-	for i := 0; i < verifh.Scale(5, 50); i++ {
+	for i := 0; i < verifh.Scale(5, 150); i++ {
 		n := r.Pick(1, 2, 3, r.Range(1, 8))
 		g := r.Pick(1, 2, n+1, r.Range(2, 8))
 		secs = append(secs, verifh.Section{Cfg: fmt.Sprintf("kind=runner mode=conc n=%d", n), Ops: []string{
